@@ -202,7 +202,7 @@ def rule_truncate_noop(ctx):
     return n + 1
 
 
-def rule_tscforward(ctx):
+def rule_tscforward(ctx, rule='C12.TSCFORWARD'):
     """Every nested branch computation receives the caller's tsc_format (the TSC form may differ from the classic
     one only by the marker, at every level of the composition)."""
     n = 0
@@ -222,7 +222,7 @@ def rule_tscforward(ctx):
                 idx = callee.params.index('tsc_format') - (1 if callee.cls and callee.parent is None else 0)
                 if 0 <= idx < len(c.args):
                     passed = c.args[idx]
-            ctx.check(passed is not None and norm(passed) == 'tsc_format', 'C12.TSCFORWARD', ctx.key(f, q.stmt(c)),
+            ctx.check(passed is not None and norm(passed) == 'tsc_format', rule, ctx.key(f, q.stmt(c)),
                       f'tsc_format forwarded to {callee.qual}',
                       f'{callee.qual} is called without the caller\'s tsc_format '
                       f'({"passes " + norm(passed) if passed is not None else "default used"}): '
